@@ -2,6 +2,7 @@
 import vlib
 import schedlib
 import stopforget
+import mfree
 
 ID = "C13"
 CLAIMED = True
@@ -62,17 +63,22 @@ nontrivial = schedlib.nontrivial
 
 
 def project(line, raw):
+    if mfree.is_mf(line):
+        return mfree.project(line, raw)
     return stopforget.project(line, raw) if stopforget.is_sf(line) else schedlib.project(line, raw)
 
 
 def model_input(line, raw):
+    if mfree.is_mf(line):
+        return mfree.model_input(line, raw)
     return stopforget.model_input(line, raw) if stopforget.is_sf(line) else schedlib.model_input(line, raw)
 
 
 def generate(rng, tier):
     # scheduler-slice histories (model + correspondence) plus the model-free
     # "stop forgets the cached records" family (tools/props/stopforget.py)
-    return schedlib.generate_histories(rng, tier, ID) + stopforget.generate(rng, tier)
+    return (schedlib.generate_histories(rng, tier, ID) + stopforget.generate(rng, tier)
+            + mfree.generate(rng, tier, ["nh"]))
 
 
 def shrink(line, still_bad):
